@@ -128,3 +128,77 @@ Proof.
     destruct (IH ords (S i) (keyloop cfg b (ords i) st) Hb2 Hv) as [I1 I2].
     rewrite I1, I2, K1, K2, cell_bodies_cons. simpl. rewrite app_assoc. split; reflexivity.
 Qed.
+
+(** every loop body of the model is [named] *)
+Ltac named_tac :=
+  intros n cfgn c; cbv beta iota zeta delta [scan_entities scan_config w0_del w0_cre w0_upd w1_del w1_cre w1_upd
+                                  sup_del sup_cre sup_upd tc_del tc_cre tc_upd do_init do_inherit do_close];
+  repeat (match goal with |- context [match ?x with _ => _ end] => destruct x; cbv beta iota zeta end);
+  cbn [fst snd]; repeat constructor.
+
+Lemma named_scan_entities : named scan_entities. Proof. named_tac. Qed.
+Lemma named_scan_config q t : named (scan_config q t). Proof. named_tac. Qed.
+Lemma named_w0_del : named w0_del. Proof. named_tac. Qed.
+Lemma named_w0_cre : named w0_cre. Proof. named_tac. Qed.
+Lemma named_w0_upd : named w0_upd. Proof. named_tac. Qed.
+Lemma named_w1_del : named w1_del. Proof. named_tac. Qed.
+Lemma named_w1_cre : named w1_cre. Proof. named_tac. Qed.
+Lemma named_w1_upd : named w1_upd. Proof. named_tac. Qed.
+Lemma named_sup_del pan t : named (sup_del pan t). Proof. named_tac. Qed.
+Lemma named_sup_cre pan t : named (sup_cre pan t). Proof. named_tac. Qed.
+Lemma named_sup_upd pan t : named (sup_upd pan t). Proof. named_tac. Qed.
+Lemma named_tc_del pan t : named (tc_del pan t). Proof. named_tac. Qed.
+Lemma named_tc_cre pan t : named (tc_cre pan t). Proof. named_tac. Qed.
+Lemma named_tc_upd pan t : named (tc_upd pan t). Proof. named_tac. Qed.
+
+Lemma bodies_named q pan t a b : Forall named (bodies q pan t a b).
+Proof.
+  unfold bodies; destruct a, b; cbn [app];
+    repeat (constructor;
+            [first [apply named_scan_entities | apply named_scan_config | apply named_w0_del | apply named_w0_cre
+                   | apply named_w0_upd | apply named_w1_del | apply named_w1_cre | apply named_w1_upd
+                   | apply named_sup_del | apply named_sup_cre | apply named_sup_upd
+                   | apply named_tc_del | apply named_tc_cre | apply named_tc_upd]|]);
+    constructor.
+Qed.
+
+Lemma step_spec q pan t sc cfg st n : visits n (ords sc) ->
+  fst (step q pan t sc cfg st) n = fst (cell_step q pan t (w1_first sc) (tc_first sc) n (cfg n) (fst st n)) /\
+  log_of n (snd (step q pan t sc cfg st)) =
+    log_of n (snd st) ++ snd (cell_step q pan t (w1_first sc) (tc_first sc) n (cfg n) (fst st n)).
+Proof.
+  intros Hv. unfold step, cell_step.
+  exact (run_loops_spec cfg n _ (ords sc) 0%nat (fun m => clear_cell (fst st m), snd st)
+                        (bodies_named q pan t _ _) Hv).
+Qed.
+
+(** what of a snapshot (and of its scheduling) matters for name [n] *)
+Definition proj (n : name) (x : sched * snapshot) : bool * bool * option spec :=
+  (w1_first (fst x), tc_first (fst x), snd x n).
+
+Definition good_steps (n : name) (steps : list (sched * snapshot)) : Prop :=
+  Forall (fun x => visits n (ords (fst x))) steps.
+
+Lemma exec_spec q pan n : forall steps t st,
+  good_steps n steps ->
+  fst (exec q pan t steps st) n = fst (cell_exec q pan t n (map (proj n) steps) (fst st n, log_of n (snd st))) /\
+  log_of n (snd (exec q pan t steps st)) = snd (cell_exec q pan t n (map (proj n) steps) (fst st n, log_of n (snd st))).
+Proof.
+  induction steps as [|[sc cfg] r IH]; intros t st Hg.
+  - simpl. split; reflexivity.
+  - inversion Hg as [|x r' Hv Hg']; subst. cbn [fst] in Hv.
+    cbn [exec map proj cell_exec fst snd].
+    destruct (step_spec q pan t sc cfg st n Hv) as [S1 S2].
+    destruct (cell_step q pan t (w1_first sc) (tc_first sc) n (cfg n) (fst st n)) as [c l] eqn:Ec.
+    cbn [fst snd] in S1, S2.
+    destruct (IH (t + 1) (step q pan t sc cfg st) Hg') as [I1 I2].
+    rewrite S1, S2 in I1, I2. split; assumption.
+Qed.
+
+(** the model is per-name: the cell and the log of a name after any run are
+    those of running the same loop bodies on that name alone *)
+Lemma model_is_per_name q pan n steps :
+  good_steps n steps ->
+  fst (run q pan steps) n = fst (cell_exec q pan 0 n (map (proj n) steps) (cell0, [])) /\
+  log_of n (snd (run q pan steps)) = snd (cell_exec q pan 0 n (map (proj n) steps) (cell0, [])).
+Proof. intros Hg. exact (exec_spec q pan n steps 0 init_state Hg). Qed.
